@@ -73,12 +73,19 @@ def main():
     if a.record and rc in (0, 2):
         # only contract clauses are pinned: call-site preconditions, invariants and implicit-exception obligations
         # depend on the shape of the code and may legitimately appear / disappear when it is edited
-        expected_all[a.pid] = sorted(o["name"] for o in run.obligations
-                                     if (o["status"] == "proved" or o.get("known_finding"))
-                                     and o.get("kind") in ("post", "exc", "frame", "lemma", "bounded"))
-        with open(exp_path, "w") as f:
-            json.dump(expected_all, f, indent=1, sort_keys=True)
-        print(f"recorded {len(expected_all[a.pid])} expected obligations for {a.pid}")
+        mine = sorted(o["name"] for o in run.obligations
+                      if (o["status"] == "proved" or o.get("known_finding"))
+                      and o.get("kind") in ("post", "exc", "frame", "lemma", "bounded"))
+        # several checks may record at the same time: read-modify-write under a file lock
+        import fcntl
+        with open(exp_path + ".lock", "w") as lk:
+            fcntl.lockf(lk, fcntl.LOCK_EX)
+            expected_all = driver.load_json(exp_path, {})
+            expected_all[a.pid] = mine
+            with open(exp_path, "w") as f:
+                json.dump(expected_all, f, indent=1, sort_keys=True)
+            fcntl.lockf(lk, fcntl.LOCK_UN)
+        print(f"recorded {len(mine)} expected obligations for {a.pid}")
     return rc
 
 
